@@ -122,8 +122,25 @@ def run(ctx: core.Ctx):
         ctx.case(("cube", cube.tobytes()), sample=dict(accessor="autocorr", shape=list(cube.shape)))
         ctx.count("layouts/accessor")
         for name, got in (("autocorr_tyx", r_tyx), ("autocorr", r_yxt), ("accessor tyx", acc1), ("accessor yxt", acc2), ("dask tyx", acc3), ("dask yxt", acc4)):
-            if not np.array_equal(np.asarray(got, dtype="float32"), want.astype("float32")):
-                ctx.fail(name, dict(cube=cube.tolist() if nt <= 12 else dict(shape=list(cube.shape))), np.asarray(got).tolist(), want.tolist(), note="same value for both layouts, numpy and dask")
+            if np.asarray(got).dtype != np.float32 or not np.array_equal(np.asarray(got), want.astype("float32")):
+                ctx.fail(name, dict(cube=cube.tolist() if nt <= 12 else dict(shape=list(cube.shape))), dict(dtype=str(np.asarray(got).dtype), values=np.asarray(got).tolist()), want.tolist(),
+                         note="same float32 value for both layouts, numpy and dask")
+    # exactly (anti-)correlated lag-1 vectors: linear ramps and strictly alternating series give |r| = 1; the value always lies in [-1, 1]
+    for n in list(range(3, 61)) + [100, 200, 360]:
+        ramp = (np.arange(n) * 3 + 7).astype("int16")
+        alt = np.array([5 if i % 2 else 90 for i in range(n)], dtype="int16")
+        cube = np.stack([ramp, alt, ramp[::-1].copy()], axis=1).reshape(n, 3, 1)
+        da = xr.DataArray(cube, dims=("time", "y", "x"), coords={"time": np.arange(n).astype("datetime64[D]")}, attrs={"nodata": -3000})
+        outs = {"accessor tyx int16": da.hdc.algo.autocorr(), "accessor yxt int16": da.transpose("y", "x", "time").hdc.algo.autocorr(),
+                "accessor tyx float64": da.astype("float64").drop_attrs().hdc.algo.autocorr(), "accessor yxt float32": da.astype("float32").drop_attrs().transpose("y", "x", "time").hdc.algo.autocorr()}
+        ctx.case(("perfect", n), sample=dict(accessor="autocorr", family="ramp / alternating", n=n))
+        ctx.count("perfectly correlated series")
+        for nm, r in outs.items():
+            v = np.asarray(r, dtype="float64").ravel()
+            if (np.abs(v) > 1.0).any():
+                ctx.fail("autocorr", dict(n=n, path=nm, series="3t+7 / alternating 90,5 / reversed ramp"), [float(x) for x in v], "within [-1, 1]",
+                         note="the value always lies in [-1, 1]")
+                break
     import json, subprocess, sys
     script = r"""
 import json, warnings
